@@ -193,6 +193,8 @@ type srvOpts struct {
 	sndbuf       int
 	rcvbuf       int
 	stall        *atomic.Bool // non-nil: accepted connections stop reading when it is set
+	multicast    bool         // enable the UDP-multicast transport
+	seed         uint64
 }
 
 func startServer(rec *Rec, o srvOpts) (*serverFixture, error) {
@@ -218,6 +220,13 @@ func startServer(rec *Rec, o srvOpts) (*serverFixture, error) {
 				}
 				return &smallBufListener{Listener: l, sndbuf: o.sndbuf, rcvbuf: o.rcvbuf, stall: o.stall}, nil
 			},
+		}
+		if o.multicast {
+			// group range and ports derived from the scenario seed (children run in parallel)
+			mp := 20000 + 2*int((o.seed>>8)%15000) + 2*try
+			fx.srv.MulticastIPRange = fmt.Sprintf("224.%d.0.0/16", 1+int(o.seed%200))
+			fx.srv.MulticastRTPPort = mp
+			fx.srv.MulticastRTCPPort = mp + 1
 		}
 		err = fx.srv.Start()
 		if err == nil {
